@@ -28,6 +28,12 @@ CHECKS = {
         "note": "asyncio.wait/Future/time replaced by the sched stubs (contract: any subset of pending futures completes per wake-up, non-decreasing clock); should_launch_backup min_tasks lowered to 1; integer times; schedules longer than the bound are outside the claim; lithops' own map_unordered and real I/O fault injection are outside.",
     },
 }
+CHECKS["C15"] = {
+    "engine": "sx",
+    "technique": "bounded symbolic execution (z3) of the real index-notation key-function compiler and of the real fusion code on provenance terms",
+    "text": "(a) For every index pattern within the bound (<=2 args x <=2 dims x 2-3 symbols quick; up to 3 args / 3 dims / 4 symbols thorough), every block-count combination 1..3 with per-argument broadcast, new axes and every output coordinate, the key function returned by make_blockwise_back_key_function_flattened names exactly the blocks the index algebra designates (same array, argument position, coordinates; 0 on broadcast axes; explicit ValueError iff a contracted axis has several blocks). (b) For 14 fusion trees (depth 2-3) over key functions taken from the real operations (elementwise/broadcast/transpose via the index compiler; partial_reduce stream, stack alternating source, repeat and scan with block-id delivery, unstack multi-output: closures re-instantiated from the current code objects) the real fuse_blockwise_specs/fuse yield a spec whose evaluation on symbolic blocks equals the unfused evaluation, including list-vs-iterator structure. Decided by z3 on every path.",
+    "note": "block functions are uninterpreted constructors; patterns with repeated symbols inside one index and literal arguments are outside; concat/index selection key functions are covered under C01/C02; fusion trees deeper than 3 outside.",
+}
 for p in PENDING:
     if p not in CHECKS:
         NOT_APPLICABLE[p] = "check not built yet in this revision (planned, see DESIGN.md §5)"
